@@ -55,6 +55,8 @@ def run(ck: Checker, prog: Program, tier: str):
         ck.guard(c04._orientation_carried, ck, prog)
     with ck.borrow(c15, "C10.R1+"):
         ck.guard(c15.check_constructors, ck, prog, [prog.cls(cname) for cname in ("Settings", "PreProcessingSettings", "HvsrPreProcessingSettings", "PsdPreProcessingSettings")])
+    from .common import check_identity_comparisons as _cic
+    ck.guard(_cic, ck, prog, "C10.R1", "C10")
 
 
 def _detrend_unconditional(ck: Checker, prog: Program, rule: str = "C10.R1"):
